@@ -283,7 +283,7 @@ fn seed_bytes(seed: u64, id: &str, worker: u64) -> [u8; 32] {
     out
 }
 
-fn panic_message(p: &Box<dyn std::any::Any + Send>) -> String {
+pub fn panic_message(p: &Box<dyn std::any::Any + Send>) -> String {
     if let Some(s) = p.downcast_ref::<&str>() {
         s.to_string()
     } else if let Some(s) = p.downcast_ref::<String>() {
